@@ -1,17 +1,70 @@
 //! GF(256) modulo x^8+x^5+x^3+x^2+1 (0x12D) by shift-and-xor, no tables.
 pub fn mul(a: u8, b: u8) -> u8 {
+    // eight shift-and-add steps, written out so that no loop bound is involved
     let mut acc: u16 = 0;
     let mut aa: u16 = a as u16;
+    macro_rules! step {
+        ($i:expr) => {
+            if (b >> $i) & 1 == 1 {
+                acc ^= aa;
+            }
+            aa <<= 1;
+            if aa & 0x100 != 0 {
+                aa ^= 0x12D;
+            }
+        };
+    }
+    step!(0);
+    step!(1);
+    step!(2);
+    step!(3);
+    step!(4);
+    step!(5);
+    step!(6);
+    step!(7);
+    acc as u8
+}
+
+/// 2^e in GF(256)
+pub fn pow2(e: usize) -> u8 {
+    let mut r: u8 = 1;
     let mut i = 0;
-    while i < 8 {
-        if (b >> i) & 1 == 1 {
-            acc ^= aa;
-        }
-        aa <<= 1;
-        if aa & 0x100 != 0 {
-            aa ^= 0x12D;
-        }
+    while i < e {
+        r = mul(r, 2);
         i += 1;
     }
-    acc as u8
+    r
+}
+
+/// Coefficients of prod_{i=1..k} (x + 2^i), highest degree first (g[0] = 1), into g[..=k].
+pub fn generator(k: usize, g: &mut [u8; 70]) {
+    let mut i = 0;
+    while i < 70 {
+        g[i] = 0;
+        i += 1;
+    }
+    g[0] = 1;
+    let mut deg = 0;
+    let mut root: u8 = 1;
+    while deg < k {
+        root = mul(root, 2);
+        // multiply by (x + root): new[j] = old[j] + root * old[j-1]
+        let mut j = deg + 1;
+        while j >= 1 {
+            g[j] ^= mul(root, g[j - 1]);
+            j -= 1;
+        }
+        deg += 1;
+    }
+}
+
+/// Horner evaluation of c[0] x^(n-1) + ... + c[n-1] at x.
+pub fn eval(c: &[u8], n: usize, x: u8) -> u8 {
+    let mut acc = 0u8;
+    let mut i = 0;
+    while i < n {
+        acc = mul(acc, x) ^ c[i];
+        i += 1;
+    }
+    acc
 }
